@@ -37,7 +37,11 @@ MSG_METHODS = ["SendData", "SendUint32", "SendLabel", "SendString", "SendByte", 
 def run(ctx):
     ctx.prove("MpcVerif.Props.C02", THEOREMS)
     # composition with the connection-layer theorem of C11 (transport fragmentation, writer schedule)
-    ctx.prove("MpcVerif.Props.C02Conn", ["Mpc.C02_messages_over_conn", "Mpc.Msg.ofVal_toVal", "Mpc.C11_conn_roundtrip"])
+    # and the whole session over two connections: every flight of every size (no hypothesis relates a message to the
+    # 64 KiB write buffer / 1 MiB read window), every writer schedule, every read fragmentation of both directions
+    ctx.prove("MpcVerif.Props.C02Conn", ["Mpc.C02_messages_over_conn", "Mpc.Msg.ofVal_toVal", "Mpc.C11_conn_roundtrip",
+                                         "Mpc.C02_flight_over_conn", "Mpc.C02_both_get_f_over_conn",
+                                         "Mpc.C02_result_independent_of_transport"])
     if ctx.tier == "thorough":
         ctx.leanchecker("MpcVerif.Props.C02")
     ctx.build_drv()
@@ -50,13 +54,16 @@ def run(ctx):
     quick = ctx.tier == "quick"
     if ctx.build_hx():
         plan = [("ideal", 150 if quick else 3000), ("real", 35 if quick else 400), ("compiled", 36 if quick else 450),
-                ("shared", 6 if quick else 60)]
+                ("shared", 6 if quick else 60), ("conn", 64 if quick else 420)]
         for mode, n in plan:
             ops, out, meta = ctx.run_hx(mode, n, timeout=1500)
             ctx.absorb_meta(meta, prefix=mode + "_")
             what = {"ideal": "both transcripts byte-exact + results", "real": "results with RSA/CO/COT/COT-malicious",
                     "compiled": "compiled MPCL programs incl. struct/array arguments, results",
-                    "shared": "24 overlapping sessions per round on ONE shared circuit value, transcripts + results"}[mode]
+                    "shared": "24 overlapping sessions per round on ONE shared circuit value, transcripts + results",
+                    "conn": "byte volumes across the 64 KiB / 1 MiB Conn buffers x every OT over the fragmenting, delaying "
+                            "transport; stream digests, transport read pattern and results vs the session-over-Conn model"
+                    }[mode]
             ctx.correspond("%s sessions (%s)" % (mode, what), ops, out)
             for line in open(ops, errors="replace"):
                 ctx.distinct.add(hashlib.sha1(line.encode()).digest())
@@ -64,15 +71,31 @@ def run(ctx):
         ctx.oblige("generator reached evaluator inputs beyond one OT-extension chunk (> 512 bits, not byte aligned) with real OT",
                    c.get("real_evaluator_input_over_512_bits_not_byte_aligned", 0) > 0,
                    "counters: %s" % {k: v for k, v in c.items() if "512" in k})
+        # the size / schedule classes the quantifier names must actually have been generated
+        for otn in ("ideal", "co", "cot", "cotm", "rsa"):
+            ctx.oblige("generator: a %s-OT session moved more than 1 MiB (the Conn read buffer) to the evaluator" % otn,
+                       c.get("conn_ot_%s_to_evaluator_over_1MiB" % otn, 0) > 0, "counters: %s" % c)
+        for otn in ("co", "cot", "cotm"):
+            ctx.oblige("generator: a %s-OT session moved more than 64 KiB (the Conn write buffer) to the garbler" % otn,
+                       c.get("conn_ot_%s_to_garbler_over_64KiB" % otn, 0) > 0, "counters: %s" % c)
+        ctx.oblige("generator: transport reads that filled the 1 MiB read buffer and reads that ended 1..20 bytes before its end",
+                   c.get("conn_sessions_with_a_read_filling_the_1MiB_buffer", 0) > 0 and
+                   c.get("conn_reads_ending_1_to_20_bytes_before_end_of_1MiB_buffer", 0) > 0 and
+                   c.get("conn_sched_single_byte_prefix", 0) > 0, "counters: %s" % c)
         if ctx.widen:
             for s in range(ctx.seed + 7000, ctx.seed + 7004):
-                for mode, n in (("ideal", 1500), ("real", 120)):
+                for mode, n in (("ideal", 1500), ("real", 120), ("conn", 64)):
                     ops, out, meta = ctx.run_hx(mode, n, seed=s, tag="-widen", timeout=1500)
                     ctx.absorb_meta(meta, prefix="widen_")
                 if ctx.fails:
                     break
     ctx.coverage["rule"] = ("random well-formed 2-party circuits (argument widths 1..70, 1..4 outputs of random widths incl. "
-                            "1-bit), random inputs, seeded read fragmentation on both directions; distinct = distinct op lines")
+                            "1-bit), random inputs, seeded read fragmentation on both directions; conn mode: classes small / "
+                            "tables 70..400 KiB / tables 1.1..2.5 MiB / garbler argument > 4096 bits / evaluator argument > 4096 "
+                            "bits, each with ideal, CO, COT, COT-malicious (RSA: tables; wide arguments in thorough), seeded "
+                            "schedules per direction: whole flushes, reads ending d bytes before the end of the reader's buffer "
+                            "(d in 0..20, delaying so that data accumulates), sizes around multiples of 64 KiB / 1 MiB, random "
+                            "sizes, single-byte prefix; distinct = distinct op lines")
     ctx.assumptions += [
         "OT is a parameter satisfying OtSpec in the theorem (C06 proves it per implementation); real-OT sessions are compared on results only",
         "the two parties' goroutine scheduling is outside the model (the protocol is a fixed alternation; the Conn layer's ordering is C11)",
@@ -83,4 +106,9 @@ def run(ctx):
         "satisfying OtSpec, both model runs return ok(split(plainEval(x++y))), no error branch. Tie: real "
         "circuit.Garbler/Evaluator over a recording fragmenting transport; with an out-of-band ideal OT the complete byte "
         "streams of both directions and both results equal the model's byte for byte; with RSA/CO/COT/COT-malicious results "
-        "equal the model. Facts: the Send/Receive/OT call order of both functions. Oracle: both results = Circuit.Compute.")
+        "equal the model. Facts: the Send/Receive/OT call order of both functions. Oracle: both results = Circuit.Compute. "
+        "Theorem C02_both_get_f_over_conn: the same with every flight going through the Conn model (write buffer, writer "
+        "schedule, fragmenting transport, read window) for EVERY schedule and fragmentation and every message size; "
+        "C02_result_independent_of_transport. Tie (conn mode): real sessions whose streams exceed 64 KiB and 1 MiB over a "
+        "fragmenting, delaying transport with every OT; ideal OT: stream digests, number and digest of (room, bytes) of every "
+        "transport read and results equal the session-over-Conn model replaying the recorded fragmentation.")
